@@ -105,6 +105,9 @@ impl Cors {
 
         if headers.get(HeaderType::AccessControlAllowMethods).is_none() {
             match self.allowed_methods {
+                Wildcardable::Wildcard => {
+                    headers.add(HeaderType::AccessControlAllowMethods, "*");
+                }
                 Wildcardable::Value(ref methods) if !methods.is_empty() => {
                     headers.add(
                         HeaderType::AccessControlAllowMethods,
